@@ -633,7 +633,11 @@ func (c *Collection) writeWithXattrs(
 				}
 			}
 		}
-		e.xattrs, _ = json.Marshal(xattrs)
+		if len(xattrs) > 0 {
+			e.xattrs, _ = json.Marshal(xattrs)
+		} else {
+			e.xattrs = nil // not the JSON text "null", which counts as xattrs being present
+		}
 
 		if err = checkDocSize(len(e.value) + len(e.xattrs)); err != nil {
 			return nil, err
